@@ -36,6 +36,8 @@ def imports_of(m: pg.Mod) -> set:
     for ln in m.imports:
         if ln.startswith("from pk"):
             out.add(ln.split()[1])
+        elif ln.startswith("import pk"):
+            out.add(ln.split()[1])
         elif ln.startswith("from ."):
             # relative spelling: resolved against the module's package
             spec = ln.split()[1]
@@ -295,9 +297,12 @@ def gen(tier: str, seed: int):
         rnd = pg.Mod(("pk",), "round", imports=["from .shapes import Shape, Marker"], decls=[pg.Cls("Circle", bases=["Shape"], methods=[pg.Fn("radius", [pg.Param("m", "Marker")], "float", role="inst")]), pg.Fn("unit_circle", [pg.Param("s", "Shape")], "Circle")])
         sq = pg.Mod(("pk",), "square", imports=["from pk.shapes import Shape"], decls=[pg.Cls("Square", bases=["Shape"], methods=[pg.Fn("side", [], "float", role="inst")])])
         other = pg.Mod(("pk",), "unrelated", decls=[pg.Fn("nothing_to_see", [pg.Param("n", "int")], "int")])
-        base.modules += [shapes, rnd, sq, other]
+        # ... and modules that get the base class without naming it in an import: through the module, through a wildcard
+        oval = pg.Mod(("pk",), "oval", imports=["import pk.shapes as sh"], decls=[pg.Cls("Oval", bases=["sh.Shape"], methods=[pg.Fn("axes", [], "float", role="inst")])])
+        star = pg.Mod(("pk",), "starred", imports=["from .shapes import *"], decls=[pg.Cls("Starred", bases=["Shape"], methods=[pg.Fn("points", [], "int", role="inst")])])
+        base.modules += [shapes, rnd, sq, other, oval, star]
         base.inits[("pk",)] = [pg.Reexport("star", "pk.shapes", None, None, style)] if init_form == "star" else [pg.Reexport("name", "pk.shapes", "Shape", None, style)]
-        for m in (rnd, sq):
+        for m in (rnd, sq, oval, star):
             variants, _users = make_variants(rng, base, m)
             groups.append((f"reexported-base{j}-{m.name}", base, m, variants, [[], ["-nc"], []][j]))
     return groups
